@@ -67,9 +67,10 @@ Definition local_macro_expected : nexp :=
   NCat (NLit lm_prefix) (NReplaceCh 46 [68; 68] (NReplaceCh 68 [68; 78] (NMangle NName))).
 
 (* constructs whose identifier is exactly (mangle name): every site except the
-   three with their own specification *)
+   two with their own specification (the class-pattern keyword site is among the
+   plain ones since the fix 7ce654c mangles it) *)
 Definition plain_site (s : site) : bool :=
   match s with
-  | S_local_macro | S_require_alias | S_match_class_kwd => false
+  | S_local_macro | S_require_alias => false
   | _ => true
   end.
